@@ -1,6 +1,8 @@
 """Python end of the interpreter model (lean/Glom/Model/Interp.lean):
 spec JSON -> real glom spec objects, the catalogue of instrumented callables,
 value codec, and one logged run of the real glom."""
+import contextlib
+import io
 import types
 from collections import OrderedDict
 
@@ -387,6 +389,13 @@ def build(j, fns):
         if j.get('map'):
             return glom.Iter().map(B(j['s']))
         return glom.Iter(B(j['s']))
+    if k == 'inspect':
+        kw = {'echo': bool(j.get('echo')), 'recursive': bool(j.get('recursive'))}
+        if j.get('bp') is not None:
+            kw['breakpoint'] = get_fn(fns, *j['bp'])
+        if j.get('pm') is not None:
+            kw['post_mortem'] = get_fn(fns, *j['pm'])
+        return glom.Inspect(B(j['s']), **kw)
     raise ValueError('unknown spec kind ' + k)
 
 
@@ -429,7 +438,8 @@ def run_glom(case, built=None, keep=False):
     SPEC_OBJS[:] = fns.get(('spec-containers',), [])
     res = None
     try:
-        res = glom.glom(target, spec, **kw)
+        with contextlib.redirect_stdout(io.StringIO()):      # (Inspect(echo=True) prints; not observed)
+            res = glom.glom(target, spec, **kw)
     except Exception as e:
         impl = {'err': exc_name(e)}
     else:
